@@ -3,6 +3,7 @@
 use crate::common::*;
 use crate::reps::*;
 use rand::rngs::StdRng;
+use rand::Rng;
 use serde_json::{json, Value};
 use sm9_core::*;
 use std::ops::{Add, Mul, Neg, Sub};
@@ -29,6 +30,11 @@ pub trait Grp: Copy + PartialEq + Add<Output = Self> + Sub<Output = Self> + Neg<
     fn share_coord(&self, other: &Self, which: usize) -> Option<Self>;
     /// (x, y, -z): the opposite point sharing both raw x and y
     fn flip_z(&self) -> Self;
+    /// self (normalised first) rescaled by a pattern z (real for G2) drawn from the process-wide list, when there is one
+    fn rescale_pattern(&self, rng: &mut StdRng) -> Option<Self>;
+    /// the "S" representative of self in rescaling class `sel` (deterministic sweep of the classes)
+    fn rep_class(rng: &mut StdRng, p: Self, sel: usize) -> Self;
+    const NSEL: usize;
     /// a representative whose raw y is +-1/2 (the first doubling then returns z3 = +-z), when one exists
     fn half_y(&self, neg: bool) -> Option<Self>;
 }
@@ -78,6 +84,15 @@ impl Grp for G1 {
         g1_coord(*self, which, [other.x(), other.y(), other.z()][which.min(2)])
     }
     fn flip_z(&self) -> Self { G1::new(self.x(), self.y(), -self.z()) }
+    fn rescale_pattern(&self, rng: &mut StdRng) -> Option<Self> {
+        if self.is_zero() { return None; }
+        let z = pattern_z(rng)?;
+        let mut n = *self;
+        n.normalize();
+        Some(g1_scale(n, z))
+    }
+    fn rep_class(rng: &mut StdRng, p: Self, sel: usize) -> Self { g1_rep_class(rng, p, sel) }
+    const NSEL: usize = G1_NSEL;
     fn half_y(&self, neg: bool) -> Option<Self> {
         let h = (Fq::one() + Fq::one()).inverse()?;
         g1_coord(*self, 1, if neg { -h } else { h })
@@ -123,6 +138,15 @@ impl Grp for G2 {
         g2_coord(*self, which, [other.x(), other.y(), other.z()][which.min(2)])
     }
     fn flip_z(&self) -> Self { G2::new(self.x(), self.y(), -self.z()) }
+    fn rescale_pattern(&self, rng: &mut StdRng) -> Option<Self> {
+        if self.is_zero() { return None; }
+        let z = pattern_z(rng)?;
+        let mut n = *self;
+        n.normalize();
+        Some(g2_scale(n, if rng.gen() { Fq2::new(z.inverse()?, Fq::zero()) } else { Fq2::new(Fq::zero(), z) }))
+    }
+    fn rep_class(rng: &mut StdRng, p: Self, sel: usize) -> Self { g2_rep_class(rng, p, sel) }
+    const NSEL: usize = G2_NSEL;
     fn half_y(&self, neg: bool) -> Option<Self> {
         let h = (Fq::one() + Fq::one()).inverse()?;
         g2_coord(*self, 1, Fq2::new(if neg { -h } else { h }, Fq::zero()))
